@@ -96,6 +96,28 @@ class Builder:
     def fact(self, f):
         self.ctx.fact(f)
 
+    def inline(self, qualname, *args, **kwargs):
+        """execute the real body of a repository function (paths fork as usual)"""
+        fn = self.I.repo.locate(qualname, self.I)
+        self.I.inlined.add(qualname)
+        src = self.I.repo.source_info(fn)
+        self.I.lemma_sources = getattr(self.I, 'lemma_sources', {})
+        self.I.lemma_sources[qualname] = src
+        return self.I.call_function(fn, list(args), kwargs)
+
+    def call(self, qualname, *args, **kwargs):
+        """modular call through the callee's contract (requires become obligations,
+        ensures are assumed); used by lemmas stated over contracts"""
+        fn = self.I.repo.locate(qualname, self.I)
+        use = REG.lookup(qualname)
+        if use is None:
+            raise Unsupported('no contract for ' + qualname)
+        r = use.apply(self.I, fn, list(args), kwargs)
+        if r is NotImplemented:
+            raise Unsupported('no contract case of %s accepts the call' % qualname)
+        self.I.used_contracts.add(qualname)
+        return r
+
 
 class LoopInv:
     """Loop contract for `for <target> in <iter>` loops (DESIGN 2.4).
@@ -236,16 +258,22 @@ def run_case(case, repo=None, registry=None, opts=None):
     res = CaseResult(case.qualname, case.case)
     t0 = time.time()
     opts['verifying'] = case.qualname
+    if getattr(case, 'float_model', None):
+        opts['float_model'] = case.float_model
     worklist = [[]]
     maxpaths = opts.get('max_paths', 400)
     interp = Interp(repo, registry, opts)
-    try:
-        interp.ctx = PathCtx([], [])
-        fn = repo.locate(case.qualname, interp)
-        res.source = repo.source_info(fn)
-    except Unsupported as e:
-        res.unsupported.append(str(e))
-        return res
+    is_lemma = getattr(case, 'lemma', None) is not None
+    if is_lemma:
+        res.source = {'qualname': case.qualname, 'file': '(lemma over contracts / relational)', 'lines': [0, 0], 'sha256': ''}
+    else:
+        try:
+            interp.ctx = PathCtx([], [])
+            fn = repo.locate(case.qualname, interp)
+            res.source = repo.source_info(fn)
+        except Unsupported as e:
+            res.unsupported.append(str(e))
+            return res
     while worklist:
         prefix = worklist.pop()
         res.paths += 1
@@ -259,6 +287,9 @@ def run_case(case, repo=None, registry=None, opts=None):
         ca = Builder(interp, 'assume')
         tag = 'p%d' % res.paths
         try:
+            if is_lemma:
+                _run_lemma_path(case, res, interp, ctx, cp, tag)
+                raise _LemmaDone()
             params = case.params(ca)
             if not res.witness_terms:
                 res.witness_terms = params
@@ -314,6 +345,8 @@ def run_case(case, repo=None, registry=None, opts=None):
                         nm, g = item if isinstance(item, tuple) else ('clause', item)
                         ctx.oblige('%s.raises[%s].%s' % (case.case, pr.cls.name, nm), g, kind='exc')
                 res.covers.append((tag, 'raise:' + pr.cls.name, list(ctx.pc)))
+        except _LemmaDone:
+            pass
         except PathInfeasible:
             res.aborted += 1
         except Abort:
@@ -353,3 +386,29 @@ def _argvals(fn, params):
         # remaining parameters are passed by keyword through call_function's kwargs
         raise Unsupported('contract parameters %s do not prefix the signature' % sorted(extra))
     return out
+
+
+class _LemmaDone(Exception):
+    pass
+
+
+def _run_lemma_path(case, res, interp, ctx, cp, tag):
+    """a lemma over contracts / a relational obligation: `case.lemma(c)` uses c.call(...) (callee
+    contracts) and c.inline(...) (the real body, with forking) and yields (name, goal)"""
+    hints = []
+    try:
+        for item in case.lemma(cp):
+            nm, g = item
+            kind = 'hint' if nm.startswith('hint:') else 'lemma'
+            o = ctx.oblige('%s.%s' % (case.case, nm), g, kind=kind)
+            o.hints = list(hints)
+            if kind == 'hint':
+                hints.append(o)
+        res.returns += 1
+        res.covers.append((tag, 'return', list(ctx.pc)))
+        if not res.witness_terms:
+            res.witness_terms = getattr(cp, 'witness_terms', {})
+    except PyRaise as e:
+        res.raises += 1
+        ctx.oblige('%s.no-exception[%s]' % (case.case, e.cls.name), False, kind='exc')
+        res.covers.append((tag, 'raise:' + e.cls.name, list(ctx.pc)))
